@@ -85,7 +85,7 @@ DeepSrcs == <<RepT(<<91, 49, 58>>, 28) \o <<49>> \o RepT(<<93>>, 28),           
 DeepHists == Map1A(DeepSrcs, LAMBDA s : <<EvalS(s, ObjIdx("A", "struct"))>>)
                \o Map1A(DeepSrcs, LAMBDA s : <<Compile(1, s, ObjIdx("A", "raw")), Invoke(1, ObjIdx("A", "raw"))>>)
 TotalSrcs == <<SRC_n_plus_1, SRC_syntax_err, SRC_type_err, SRC_lex_err, SRC_xs_n, SRC_deep_idx, SRC_mod0, SRC_key_zz, SRC_bad_regex,
-               SRC_if_guard, SRC_union_xs, SRC_print_n, SRC_string_m, SRC_t1_t2, SRC_nested, SRC_m_b>>
+               SRC_if_guard, SRC_union_xs, SRC_print_n, SRC_string_m, SRC_t1_t2, SRC_nested, SRC_m_b, SRC_string_mm, SRC_string_obmm>>
 FailSrcs == <<SRC_bad_regex, SRC_deep_idx, SRC_mod0, SRC_key_zz, SRC_syntax_err, SRC_type_err, SRC_lex_err>>
 AfterSrcs == <<SRC_good_match, SRC_good_match2, SRC_n_plus_1, SRC_m_b>>
 TotalHists ==
@@ -110,8 +110,8 @@ HostExpect(name, src) ==      \* for the source "1" (needs no variable)
 HostHists == Prod2(HostNames, <<SRC_one, SRC_syntax_err>>, LAMBDA hn, s : <<[op |-> "hosteval", src |-> s, host |-> hn]>>)
 
 \* "hist": BFS over actions
-HSrcs == IF P_SIZE >= 4 THEN <<SRC_n_plus_1, SRC_map_lit, SRC_t1_t2, SRC_xs_n, SRC_union_many, SRC_obj_lit>>
-         ELSE <<SRC_map_lit, SRC_t1_t2, SRC_union_many, SRC_xs_n>>
+HSrcs == IF P_SIZE >= 4 THEN <<SRC_n_plus_1, SRC_map_lit, SRC_t1_t2, SRC_xs_n, SRC_union_many, SRC_obj_lit, SRC_string_mm>>
+         ELSE <<SRC_map_lit, SRC_t1_t2, SRC_union_many, SRC_xs_n, SRC_string_mm>>
 NEng == IF P_SIZE >= 4 THEN 2 ELSE 1
 HTenvs == <<ObjIdx("A", "raw"), ObjIdx("A", "struct")>>
 HVenvs == <<ObjIdx("A", "raw"), ObjIdx("B", "raw"), ObjIdx("A", "map"), ObjIdx("D", "raw")>>
